@@ -884,7 +884,7 @@ def run(res, tier):
             detail["clang_args"] = c["clang_args"]
             res.violation(key, detail)
             nviol += 1
-        if not v and first_ok is None and cli is not None and len(c["dag"]["read"]) >= 3:
+        if not v and first_ok is None and cli is not None and len(c["dag"]["read"]) >= 3 and not c["special"]:
             first_ok = (c, cli)
     nenv = check_env(res, out, eexpect)
 
